@@ -234,6 +234,7 @@ func rulesC07(e *Engine, r *Report) {
 	if top := needFn(e, r, "R07.7", "client.(*Broker).recover"); top != nil {
 		found := 0
 		for _, cf := range WithClosures(top) {
+			var loopHdr *ssa.BasicBlock
 			Instrs(cf, func(in ssa.Instruction) {
 				st, ok := in.(*ssa.Store)
 				if !ok {
@@ -256,6 +257,7 @@ func rulesC07(e *Engine, r *Report) {
 					return
 				}
 				found++
+				loopHdr = hb
 				var facts []string
 				okAll := true
 				for i, ed := range ph.Edges {
@@ -279,7 +281,16 @@ func rulesC07(e *Engine, r *Report) {
 					"the gap scan can leave its position behind a part it has seen: later gaps and the tail then include bytes the receiver holds (they are sent again)", len(ph.Edges), facts...)
 			})
 			// sorted before scanned
-			if srt := e.findInstrs(cf, "call(sort.Sort)(§)", false); len(srt) > 0 {
+			if loopHdr != nil {
+				srt := e.findInstrs(cf, "call(sort.Sort)(§)", false)
+				okS := len(srt) == 1 && srt[0].Block().Dominates(loopHdr) && srt[0].Block() != loopHdr
+				if okS {
+					// the list sorted is the list scanned
+					lst := e.Canon(srt[0].(ssa.CallInstruction).Common().Args[0])
+					okS = len(e.ifEdges(cf, "(§ < builtin(len)("+lst+"))")) > 0
+				}
+				r.Check(okS, "R07.7", e.ShortName(cf)+": the list scanned was sorted (sort.Sort) before the loop", e.Pos(cf.Pos()),
+					"gaps are computed over an unsorted part list (parts are recorded in arrival order): ranges the receiver holds would be sent again", 1)
 				ends := e.fieldStoreVals(cf, "sts.ByteRange", "End")
 				sort.Strings(ends)
 				okE := len(ends) == 2
